@@ -16,6 +16,11 @@ MAGIC_FNS = ("owlchess::attack::bishop", "owlchess::attack::rook")
 ASSUMED = {
     ("panic", "unwrap", "owlchess::board::Board::king_pos"):
         ("board", "A-KING: every Board has exactly one king per side (validator checks it, C11; make/unmake never remove a king from a valid position, C02)"),
+    ("assert", "overflow", "<owlchess::chain::HashRepeat as owlchess::chain::Repeat>::push"):
+        ("api", "A-COUNT: the occurrence counter of a position counts entries of the chain's move stack (a Vec, at most isize::MAX bytes): "
+                "it cannot reach usize::MAX"),
+    ("assert", "overflow", "<owlchess::chain::HashRepeat as owlchess::chain::Repeat>::push::{closure#0}"):
+        ("api", "A-COUNT (the same increment written as a closure handed to Entry::and_modify)"),
     ("panic", "panic", "owlchess::chain::BaseMoveChain::<R>::push"):
         ("api", "A-UNFINISHED: push() asserts that the game outcome is unset; that is a state precondition of the chain API (set_outcome documents it, "
                 "push_unchecked states it as contract) and does not depend on the text being parsed"),
